@@ -532,8 +532,124 @@ def _dispatch(job):
     return globals()['part_' + name](arg)
 
 
+def thread_configs():
+    out = []
+    for user_op in ('add_B', 'remove_D', 'add_B_header'):
+        for disp_action in ('rm_self', 'add_C', 'remove_D', 'nop'):
+            out.append({'name': 'threads:%s:%s' % (user_op, disp_action), 'user': user_op, 'disp': disp_action})
+    return out
+
+
+def exec_threads(cfg, devs):
+    """Packet 1 is being dispatched to callback A (which performs cfg['disp']) while a user thread performs cfg['user'];
+    packet 2 arrives after both are done: it must reach exactly the registrations that exist then, once each."""
+    import queue as _q
+    from vf import cfh, vsched
+    from cflib.crazyflie import _IncomingPacketHandler
+    from cflib.utils.callbacks import Caller
+    p = Partial()
+    vsched.clear_traced_functions()
+    vsched.trace_functions(cfh.functions_of(_IncomingPacketHandler, skip=('__init__',)))
+    ex = cfh.Exec(devs, None, time_limit=30.0)
+    got = []
+    info = {}
+
+    def main():
+        s = ex.s
+        inq = vsched.VQueue()
+
+        class _TLink:
+            def receive_packet(self, wait=0):
+                try:
+                    return inq.get(True, wait) if wait else inq.get(False)
+                except _q.Empty:
+                    return None
+
+        class _TCf:
+            pass
+        cf = _TCf()
+        cf.link = _TLink()
+        cf.packet_received = Caller()
+        hd = _IncomingPacketHandler(cf)
+        hd.daemon = True
+
+        def mk(name):
+            def cb(pk):
+                got.append((name, pk.data[0]))
+            cb.__name__ = name
+            return cb
+        B, C, D = mk('B'), mk('C'), mk('D')
+
+        def A(pk):
+            got.append(('A', pk.data[0]))
+            if cfg['disp'] == 'rm_self':
+                hd.remove_port_callback(5, A)
+            elif cfg['disp'] == 'add_C':
+                hd.add_port_callback(5, C)
+            elif cfg['disp'] == 'remove_D':
+                if not info.get('d_removed'):
+                    info['d_removed'] = 'disp'
+                    hd.remove_port_callback(5, D)
+        hd.add_port_callback(5, A)
+        hd.add_port_callback(5, D)
+        hd.start()
+
+        def user():
+            if cfg['user'] == 'add_B':
+                hd.add_port_callback(5, B)
+            elif cfg['user'] == 'add_B_header':
+                hd.add_header_callback(B, 5, 0, 0xff, 0x0)
+            elif cfg['user'] == 'remove_D' and cfg['disp'] != 'remove_D':
+                info['d_removed'] = 'user'
+                hd.remove_port_callback(5, D)
+            info['user_done'] = True
+        s.spawn(None, user, name='user')
+        inq.put(_mk_packet(0x50, bytes([1])))
+        ex.wait_for(lambda: info.get('user_done') and any(g == ('A', 1) for g in got) and not inq.queue, 5.0, 'wait.first')
+        s.sleep(0.05, 'settle1')
+        ex.freeze()
+        info['n_after_first'] = len(got)
+        inq.put(_mk_packet(0x50, bytes([2])))
+        s.sleep(1.5, 'settle2')
+        info['alive'] = hd.is_alive()
+
+    ex.run(main)
+    s = ex.s
+    cname = cfg['name']
+    rp = {'part': 'threads', 'cfg': cfg, 'devs': list(devs)}
+    p.case(key=(cname, tuple(devs)), nontrivial=bool(devs), outcome=(s.status, tuple(got)))
+
+    def viol(clause, what):
+        p.violation('threads:%s:%s' % (clause, cfg['user'] + '+' + cfg['disp']), '%s devs=%r: %s; deliveries %r' % (
+            cname, devs, what, got), rp)
+    if s.died or s.status != 'ok' or info.get('alive') is False:
+        viol('dispatcher_died_or_hung', 'status %s, died %r' % (s.status, s.died[:1]))
+        return p, ex.ch.ns, ex.ch.labels
+    first = [g for g in got if g[1] == 1]
+    second = [g for g in got if g[1] == 2]
+    if first.count(('A', 1)) != 1 or (cfg['user'] != 'remove_D' and cfg['disp'] != 'remove_D' and first.count(('D', 1)) != 1):
+        viol('first_packet', 'packet 1 must reach A once (and D once unless someone removes it)')
+    if any(first.count(g) > 1 for g in first):
+        viol('first_packet_twice', 'a registration received packet 1 more than once')
+    want = {'A', 'D'}
+    if cfg['disp'] == 'rm_self':
+        want.discard('A')
+    if cfg['disp'] == 'add_C':
+        want.add('C')
+    if info.get('d_removed'):
+        want.discard('D')
+    if cfg['user'] in ('add_B', 'add_B_header'):
+        want.add('B')
+    names2 = sorted(n for n, _ in second)
+    if names2 != sorted(want):
+        viol('second_packet', 'packet 2 (queued after both the user call and the first dispatch had finished) reached %r, the '
+             'registrations that exist are %r' % (names2, sorted(want)))
+    return p, ex.ch.ns, ex.ch.labels
+
+
 def run(ck):
-    ck.rule = ('A2: every ordered pair of distinct registrations of one callable over a 54-registration alphabet x {remove first, '
+    ck.rule = ('D: user thread add/remove vs dispatcher callback add/remove at line level (12 configurations, every vector '
+               'of <= 2 deviations, thorough 3). A2: every ordered pair of distinct registrations of one callable over a 54-registration alphabet x {remove first, '
                'remove second, remove none}. A: 256 headers x 1088 registrations (17 ports x 4 port masks x 4 channels x 4 channel masks), in one '
                'table and one at a time, plus add/remove_port_callback for 16 ports. B: every registration list of '
                'length 1..L over 3 patterns, every per-callback action from {nop, raise, rm_self, rm_<other>, add_new, '
@@ -552,6 +668,13 @@ def run(ck):
             for fa in acts0:
                 jobs.append(('mutate', (n, fp, fa)))
     ck.pmap(_dispatch, jobs)
+    # D: a user thread registers / removes while the dispatcher thread delivers (real threads under the controlled
+    # scheduler, a scheduling point at every line of the dispatcher class)
+    from vf import cfh
+    from vf.explore import explore
+    cfh.setup()
+    r = explore(ck, exec_threads, thread_configs(), 2 if ck.quick else 3)
+    ck.note('user_thread_vs_dispatcher', r)
     ck.exhaustive = True
     ck.note('max_registration_list_length', L)
 
